@@ -19,7 +19,7 @@ import views
 import instances
 
 PID = "C02"
-PROPS = ["Aldy.Props.C02"]
+PROPS = ["Aldy.Props.C02", "Aldy.Props.C02Spec"]
 TRUSTED_EXTRA = ["GeneView serialiser (harness/views.py): the stage models take the loaded catalogue as input; YAML -> catalogue is C08/C09"]
 ASSUMPTIONS = ["evidence tables avoid exact float boundaries of the threshold filter (|count - threshold| < 1e-9 cases are regenerated and counted)"]
 
@@ -164,6 +164,10 @@ def run_instance(inst, drv_reqs, want_solve=True):
         snap, result = capture_model(go)
         drv_reqs.append({"op": "major_build", "gene": {"ref": gid}, "cov": views.cov_view(fcov), "cn": views.cn_view(cn_sol),
                          "alleles": list(alleles.keys()), "major_novel": lib.frac(float(prof.major_novel)), "gap": lib.frac(float(prof.gap))})
+        # spec level (Props/C02Spec): documented score of every reported multiset, decided by Lean without the ILP
+        ks = [[[a.major, int(n)] for a, n in s.solution.items()] for s in (result or [])]
+        drv_reqs.append({"op": "major_spec", "gene": {"ref": gid}, "cov": views.cov_view(fcov), "cn": views.cn_view(cn_sol),
+                         "alleles": list(alleles.keys()), "major_novel": lib.frac(float(prof.major_novel)), "gap": lib.frac(float(prof.gap)), "ks": ks})
     est = major.estimate_major(gene, cov, cn_sol, "cbc")
     out.update({"snap": snap, "result": result, "estimate": est})
     return out
@@ -208,7 +212,7 @@ def tie(ctx):
         inst["real"] = run_instance(inst, reqs)
         inst["req_end"] = len(reqs)
     outs = lib.driver_batch(reqs)
-    fam = {k: {"cases": 0, "disagreements": []} for k in ("filter_alleles", "major_structure", "major_decision")}
+    fam = {k: {"cases": 0, "disagreements": []} for k in ("filter_alleles", "major_structure", "major_decision", "major_spec_score")}
     violations = []
     stats = collections.Counter()
     families_hit = collections.Counter()
@@ -235,6 +239,16 @@ def tie(ctx):
                     families_hit[c[3].split("_")[0]] += 1
                 if diffs:
                     fam["major_structure"]["disagreements"].append({"why": "model built by solve_major_model differs from MajorInst.build: " + diffs[0], "diffs": diffs[:8], "input": desc})
+            # major_min_objective_is_spec: the score reported for a multiset is its documented score, and it is admissible
+            osp = o[2]
+            for sol, ok in zip(real["result"] or [], osp["ks"]):
+                fam["major_spec_score"]["cases"] += 1
+                if not osp["no_ref_ops"]:
+                    stats["spec_hypothesis_fails"] += 1
+                elif not ok["admissible"]:
+                    fam["major_spec_score"]["disagreements"].append({"why": f"reported multiset {sol_str(sol)['alleles']} is not an admissible decision of the model (fits / fills / one novel per site)", "input": desc})
+                elif abs(float(Fraction(ok["spec"])) - sol.score) > 1e-6:
+                    fam["major_spec_score"]["disagreements"].append({"why": f"reported score {sol.score} of {sol_str(sol)['alleles']} differs from its documented score specMajor = {float(Fraction(ok['spec']))}", "input": desc})
             res = real["estimate"]
             why, st = oracle(inst["gene"], real["fcov"], inst["cn_sol"], real["alleles"], inst["profile"], res)
             if why is None:
